@@ -53,14 +53,15 @@ def run_py(cfg, hist) -> List[Any]:
         elif kind == "reset":
             emu._scheduler.reset(cycle_base=cyc)
             out.append({"next_mti": emu._scheduler.next_mti, "next_sti": emu._scheduler.next_sti, "cycle": cyc})
-        elif kind == "snap":
+        elif kind in ("snap", "snap1"):
             # the real save_snapshot -> fresh emulator -> load_snapshot path
             import contextlib
             import io
             import os
             path = f"/verif/.build/snap/c13_{os.getpid()}.pcsnap"
             os.makedirs("/verif/.build/snap", exist_ok=True)
-            emu.cycle_count = cyc
+            # "snap1": the machine's counter has already moved one cycle past the last tick (as between two steps)
+            emu.cycle_count = cyc + (1 if kind == "snap1" else 0)
             emu.save_snapshot(path)
             emu = _mk_py(mti, sti, enabled)
             with contextlib.redirect_stdout(io.StringIO()):
@@ -82,8 +83,8 @@ def rs_req(cfg, hist):
             ops.append({"tick": cyc})
         elif ev[0] == "reset":
             ops.append({"reset": cyc})
-        elif ev[0] == "snap":
-            ops.append({"snap": cyc})
+        elif ev[0] in ("snap", "snap1"):
+            ops.append({"snap": cyc + (1 if ev[0] == "snap1" else 0)})
         elif ev[0] == "clr":
             ops.append({"set_isr": 0})
     return {"cmd": "timer", "script": ops}
@@ -105,8 +106,8 @@ def run_ref(cfg, hist):
             r.m.reset(cyc)
             r.s.reset(cyc)
             out.append({"cycle": cyc})
-        elif ev[0] == "snap":
-            out.append({"cycle": cyc})
+        elif ev[0] in ("snap", "snap1"):
+            out.append({"cycle": cyc, "next_mti": r.m.next() if r.m.active() else None, "next_sti": r.s.next() if r.s.active() else None})
         elif ev[0] == "clr":
             r.isr = 0
             out.append({"cycle": cyc})
@@ -121,6 +122,13 @@ def judge(cfg, hist, py, rs, vb: VB):
     if rs is not None and rs_out is None:
         vb.add("C13/rust-error", f"rust harness: {rs}", wit)
     for i, ev in enumerate(hist):
+        if ev[0] in ("snap", "snap1"):
+            # restoring must bring back the saved targets (the states after it are merged with the unsnapshotted ones)
+            for impl, obs in (("python", py[i]), ("rust", rs_out[i] if rs_out else None)):
+                for t, nk in (("mti", "next_mti"), ("sti", "next_sti")):
+                    if obs is not None and ref[i][nk] is not None and obs.get(nk) != ref[i][nk]:
+                        vb.add(f"C13/{impl}/snapshot-changes-next-target/{t}", f"{impl} cfg={cfg}: after {hist[:i + 1]} {nk}={obs.get(nk)}, "
+                               f"before the snapshot it was {ref[i][nk]}", wit)
         if ev[0] != "tick":
             continue
         want = ref[i]
@@ -222,7 +230,7 @@ def run(ctx) -> None:
     for cfg in cfgs:
         p = max(cfg[0], 1)
         gaps = sorted({1, 2, 3, 5, 8, 2 * p, 3 * p + 1})
-        jobs.append((cfg, gaps, ["reset", "snap", "clr"], 14 if ctx.thorough else 9))
+        jobs.append((cfg, gaps, ["reset", "snap", "snap1", "clr"], 14 if ctx.thorough else 9))
     clo = pmap(_closure, jobs)
     # default periods: directed gap sequences
     from pce500.emulator import MTI_PERIOD_CYCLES_DEFAULT as PM, STI_PERIOD_CYCLES_DEFAULT as PS
